@@ -2,9 +2,11 @@
    Only statements, each closed by `exact <lemma>`, with Print Assumptions beneath.
 
    Reading guide.  [run_fixed sim0 ops] is the log of atomic write units (puts and whole
-   batches, in program order) that the scenario [ops] (imports with optional GRANDPA scheduled /
-   forced change digests, finalisations; operations that are not valid in the state they meet are
-   skipped; a finalisation is issued the way lib/grandpa issues it: justification, prevotes,
+   batches, in program order) that the scenario [ops] (imports, finalisations; each operation says
+   whether it applied a GRANDPA authority-set change, so the theorems hold for ANY rule of
+   applicability and any number of pending scheduled / forced changes; an import may carry BABE
+   NextEpochData / NextConfigData digests, a finalisation carries the epoch-table writes of the
+   digest handler; operations that are not valid in the state they meet are skipped; a finalisation is issued the way lib/grandpa issues it: justification, prevotes,
    precommits, SetFinalisedHash, SetLatestRound, then ApplyScheduledChanges) makes the dot/state
    services issue after genesis, together with the final block
    table.  [replay db0 (firstn n ws)] is the database a crash after the n-th unit leaves.
@@ -52,15 +54,16 @@ Theorem C36_prefix_order_refuted :
   exists ops, scenario_valid ops = true /\
     all_ok_monotone None
       (crash_points (s_blocks (snd (run_prefix sim0 ops))) db0 (fst (run_prefix sim0 ops))) = false.
-Proof. exists [Imp 0 (DSched 0); Fin 1 1]. vm_compute. split; reflexivity. Qed.
+Proof. exists [Imp 0 false BNone; Fin 1 1 true []]. vm_compute. split; reflexivity. Qed.
 Print Assumptions C36_prefix_order_refuted.
 
-(* non-vacuity: a forked scenario with a forced and a scheduled change in which every operation
-   is valid; the head advances twice and the set id twice *)
+(* non-vacuity: a forked scenario with a forced and a scheduled change, flags as the
+   single-pending predictor gives them; the head advances twice and the set id twice *)
 Example C36_nonvacuous :
-  let ops := [Imp 0 DNone; Imp 0 DNone; Imp 1 (DForced 1); Imp 3 DNone; Fin 3 1;
-              Imp 4 (DSched 0); Fin 5 2; Imp 5 DNone] in
-  scenario_valid ops = true /\
+  let dops := [DImp 0 DNone BNone; DImp 0 DNone BNone; DImp 1 (DForced 1) BNone; DImp 3 DNone BNone;
+               DFin 3 1 []; DImp 4 (DSched 0) BNone; DFin 5 2 []; DImp 5 DNone BNone] in
+  let ops := predict dops in
+  single_pending dops = true /\ scenario_valid ops = true /\
   length (fst (run_fixed sim0 ops)) = 39%nat /\
   recover (s_blocks (snd (run_fixed sim0 ops))) (replay db0 (fst (run_fixed sim0 ops))) = VOk 5 2 1 2.
 Proof. vm_compute. repeat split; reflexivity. Qed.
@@ -70,8 +73,23 @@ Proof. vm_compute. repeat split; reflexivity. Qed.
    stays pending on a descendant meanwhile, is applied by the finalisation of block 3, and block 3
    is finalised again in round 1 of the new set *)
 Example C36_nonvacuous_refinalise :
-  let ops := [Imp 0 DNone; Fin 1 1; Fin 1 2; Imp 1 (DSched 1); Fin 1 3; Imp 2 DNone; Fin 3 4; Fin 3 1] in
-  scenario_valid ops = true /\
+  let dops := [DImp 0 DNone BNone; DFin 1 1 []; DFin 1 2 []; DImp 1 (DSched 1) BNone; DFin 1 3 [];
+               DImp 2 DNone BNone; DFin 3 4 []; DFin 3 1 []] in
+  let ops := predict dops in
+  single_pending dops = true /\ scenario_valid ops = true /\
   length (fst (run_fixed sim0 ops)) = 48%nat /\
   recover (s_blocks (snd (run_fixed sim0 ops))) (replay db0 (fst (run_fixed sim0 ops))) = VOk 3 1 1 1.
+Proof. vm_compute. repeat split; reflexivity. Qed.
+
+(* non-vacuity beyond the single-pending class: scheduled changes pending on two forks and on the
+   same chain at once, a forced change applied at an import while a scheduled one is pending,
+   BABE announcements on two forks and the epoch-table writes of the finalisation that persists
+   one of them (a put, then the batch deleting the announcements); three set changes *)
+Example C36_nonvacuous_multi :
+  let ops := [Imp 0 false BEpoch; Imp 0 false BBoth; Imp 1 false BNone; Imp 3 false BNone;
+              Fin 3 1 true [EPut (KEpd 1); EDel [KNed 1 1; KNed 1 2]];
+              Imp 4 true BNone; Fin 4 1 false []; Fin 5 2 true [EPut (KCfd 1); EDel [KNcd 1 2]]] in
+  scenario_valid ops = true /\
+  length (fst (run_fixed sim0 ops)) = 55%nat /\
+  recover (s_blocks (snd (run_fixed sim0 ops))) (replay db0 (fst (run_fixed sim0 ops))) = VOk 5 2 2 3.
 Proof. vm_compute. repeat split; reflexivity. Qed.
